@@ -99,7 +99,7 @@ func GenGraphModel(rng *rand.Rand) *Model {
 // wildcards in and behind cycles, intersections and exclusions on and next to cycles.
 func GenWModel(rng *rand.Rand) *Model {
 	objTypes := []string{"doc", "folder", "org"}[:1+rng.Intn(3)]
-	terms := []string{"user", "employee"}[:1+rng.Intn(2)]
+	terms := []string{"user", "employee", "team", "dept", "org2"}[:1+rng.Intn(5)]
 	relPool := []string{"a", "b", "c", "d"}
 	m := &Model{Schema: "1.1"}
 	defs := map[string][]string{}
@@ -121,6 +121,9 @@ func GenWModel(rng *rand.Rand) *Model {
 		for i := 0; i < np; i++ {
 			pn := []string{"p", "q"}[i]
 			k := 1 + rng.Intn(2)
+			if rng.Intn(4) == 0 {
+				k = 3 + rng.Intn(2) // repeated parent types (conditioned twins) followed by other types
+			}
 			for j := 0; j < k; j++ {
 				parents[pn] = append(parents[pn], objTypes[rng.Intn(len(objTypes))])
 			}
@@ -130,10 +133,13 @@ func GenWModel(rng *rand.Rand) *Model {
 		}
 		genThis := func() []Ref {
 			n := 1 + rng.Intn(3)
+			if rng.Intn(5) == 0 {
+				n = 3 + rng.Intn(3)
+			}
 			out := []Ref{}
 			for i := 0; i < n; i++ {
 				switch rng.Intn(6) {
-				case 0:
+				case 0, 5:
 					out = append(out, Ref{Type: terms[rng.Intn(len(terms))], Wildcard: true, Cond: conds[rng.Intn(len(conds))]})
 				case 1, 2:
 					ot := objTypes[rng.Intn(len(objTypes))]
@@ -249,6 +255,70 @@ func GenWModel(rng *rand.Rand) *Model {
 		}
 		m.Types = append(m.Types, ty)
 	}
+	rng.Shuffle(len(m.Types), func(i, j int) { m.Types[i], m.Types[j] = m.Types[j], m.Types[i] })
+	return m
+}
+
+// GenWildModel: wildcard-heavy shapes: a shared relation with several public types (optionally on a
+// tuple cycle), several relations that each combine it with one more public type, and a second layer
+// on top - the shapes in which wildcard lists are merged, extended and shared.
+func GenWildModel(rng *rand.Rand) *Model {
+	terms := []string{"user", "group", "team", "org", "dept", "bot"}
+	rng.Shuffle(len(terms), func(i, j int) { terms[i], terms[j] = terms[j], terms[i] })
+	nt := 3 + rng.Intn(4)
+	terms = terms[:nt]
+	m := &Model{Schema: "1.1"}
+	for _, t := range terms {
+		m.Types = append(m.Types, Type{Name: t, MetaNil: true})
+	}
+	doc := Type{Name: "doc"}
+	ns := 1 + rng.Intn(nt-1)
+	shared := Rel{Name: "s", Rewrite: This()}
+	for i := 0; i < ns; i++ {
+		shared.Restr = append(shared.Restr, Ref{Type: terms[i], Wildcard: true})
+	}
+	if rng.Intn(3) == 0 {
+		shared.Restr = append(shared.Restr, Ref{Type: "doc", Rel: "s"})
+	}
+	if rng.Intn(3) == 0 {
+		shared.Restr = append(shared.Restr, Ref{Type: terms[rng.Intn(nt)]})
+	}
+	doc.Rels = append(doc.Rels, shared)
+	np := 2 + rng.Intn(3)
+	layer := []string{}
+	for i := 0; i < np; i++ {
+		xn := "x" + itoa(i)
+		x := Rel{Name: xn, Rewrite: This(), Restr: []Ref{{Type: terms[rng.Intn(nt)], Wildcard: true}}}
+		if rng.Intn(4) == 0 {
+			x.Restr = append(x.Restr, Ref{Type: terms[rng.Intn(nt)], Wildcard: rng.Intn(2) == 0})
+		}
+		doc.Rels = append(doc.Rels, x)
+		pn := "p" + itoa(i)
+		ops := []*U{CU("s"), CU(xn)}
+		if rng.Intn(2) == 0 {
+			ops[0], ops[1] = ops[1], ops[0]
+		}
+		var rw *U
+		switch rng.Intn(6) {
+		case 0:
+			rw = Diff(ops[0], ops[1])
+		case 1:
+			rw = Union(This(), ops[0], ops[1])
+		default:
+			rw = Union(ops...)
+		}
+		p := Rel{Name: pn, Rewrite: rw}
+		if rw.CountThis() > 0 {
+			p.Restr = []Ref{{Type: terms[rng.Intn(nt)], Wildcard: rng.Intn(2) == 0}}
+		}
+		doc.Rels = append(doc.Rels, p)
+		layer = append(layer, pn)
+	}
+	// second layer
+	for i := 0; i+1 < len(layer) && i < 2; i++ {
+		doc.Rels = append(doc.Rels, Rel{Name: "q" + itoa(i), Rewrite: Union(CU(layer[i]), CU(layer[i+1]))})
+	}
+	m.Types = append(m.Types, doc)
 	rng.Shuffle(len(m.Types), func(i, j int) { m.Types[i], m.Types[j] = m.Types[j], m.Types[i] })
 	return m
 }
